@@ -33,18 +33,21 @@ PIVOTS = [datetime(2021, 3, 14, 10, 0, tzinfo=timezone.utc), datetime(2021, 11, 
           datetime(1985, 12, 31, 18, 30, tzinfo=timezone.utc),                                                            # Kathmandu +5:30 -> +5:45
           datetime(1700, 1, 2, tzinfo=timezone.utc), datetime(2239, 12, 30, tzinfo=timezone.utc), datetime(1970, 1, 1, tzinfo=timezone.utc),
           datetime(2020, 6, 1, 12, 0, tzinfo=timezone.utc)]
+PIVOT_ZONE = {0: "America/Los_Angeles", 1: "America/Los_Angeles", 2: "Australia/Lord_Howe", 3: "Australia/Lord_Howe", 4: "Asia/Kathmandu"}
 kinds = {}
+prefer_zone = [None]      # the zoneinfo zone whose DST change the current history sits on
 
 
-def represent(rng, instant_us):
+def represent(rng, instant_us, kinds_=("utc", "fixed", "fixed", "zoneinfo", "naive", "naive")):
     """the instant as a caller might hand it in -> (datetime object, the instant Python itself assigns to it, kind)"""
     d = M.dt_of(instant_us)
-    k = rng.choice(["utc", "fixed", "fixed", "zoneinfo", "naive", "naive"])
+    k = rng.choice(kinds_)
     if k == "fixed":
         off = timezone(timedelta(minutes=rng.choice([-720, -480, -210, 1, 330, 345, 630, 840])))
         x = d.astimezone(off)
     elif k == "zoneinfo":
-        x = d.astimezone(zoneinfo.ZoneInfo(rng.choice(["America/Los_Angeles", "Australia/Lord_Howe", "Asia/Kathmandu", "Europe/London"])))
+        zones = ["America/Los_Angeles", "Australia/Lord_Howe", "Asia/Kathmandu", "Europe/London"] + ([prefer_zone[0]] * 4 if prefer_zone[0] else [])
+        x = d.astimezone(zoneinfo.ZoneInfo(rng.choice(zones)))
     elif k == "naive":
         x = d.astimezone().replace(tzinfo=None)          # local wall clock, fold kept
         if rng.random() < 0.3:
@@ -68,7 +71,9 @@ def history(h):
     g = dbgen.Gen((seed << 18) + h, {})
     csv = h % 2 == 0
     auto = h % 4 < 2 or h % 8 == 7
-    pivot = us(rng.choice(PIVOTS))
+    pi = rng.randrange(len(PIVOTS))
+    pivot = us(PIVOTS[pi])
+    prefer_zone[0] = PIVOT_ZONE.get(pi)
     step = rng.choice([1, 1, 1_800_000_000, 3_600_000_000, 60_000_000])
     base = [pivot + (i - 3) * step for i in range(rng.choice([4, 6, 8]))]
     if rng.random() < 0.4:
@@ -86,13 +91,17 @@ def history(h):
 
     def tq():
         t = rng.choice(allp)["time"] + rng.choice([0, 0, 1, -1, step // 2])
-        x, inst, _ = represent(rng, t)
-        while x.tzinfo is None:                                  # comparison values must be timezone-aware (documented)
-            x, inst, _ = represent(rng, t)
+        # comparison values must be timezone-aware (documented); zoneinfo zones give wall-clock times inside folds and gaps
+        x, inst, _ = represent(rng, t, ("utc", "fixed", "zoneinfo", "zoneinfo"))
         return ("S", "time", [], ("cmp", rng.choice(["<", "<=", ">", ">=", "==", "!="]), ("t", inst, x)))
     for _ in range(5):
         ops.append(rng.choice([("search", tq(), None, rng.random() < 0.6), ("count", tq(), None), ("get_timestamps", None),
                                ("select", ["time"], tq(), None), ("all", True), ("search", ("and", tq(), tq()), None, True)]))
+    # equality against exactly a stored instant, the comparison value expressed in the zone whose DST change this is
+    for c in ("==", "!="):
+        tp = rng.choice(allp)["time"]
+        x, inst, _ = represent(rng, tp, ("zoneinfo",))
+        ops.append(("count", ("S", "time", [], ("cmp", c, ("t", inst, x))), None))
     # update(time=...): static in some zone, and through callables (identity, +1h returned in +05:00)
     tgt = rng.choice(allp)
     x, inst, _ = represent(rng, tgt["time"] + rng.choice([1, 3_600_000_000, -86_400_000_000]))
